@@ -25,7 +25,8 @@ func init() {
 		Level: "model_checking",
 		Rule: "E-ENV deviation-bounded environment exploration on the real connection and transfer loops: for five session kinds (control session incl. a 5000-byte line, file upload, folder upload, file download, folder download) the client's byte stream " +
 			"is delivered unsplit, with every single cut, with every pair of cuts (quick: pairs within the first 96 bytes and around structural boundaries), and in fixed pieces of 1,2,3,5,7,11,13,16 bytes; " +
-			"each delivery is one execution whose normalised observation (transactions received, transfer bytes, directory snapshot, user list) must equal the unsplit run's; a state = (session, segmentation), a transition = one read segment",
+			"each delivery is one execution whose normalised observation (transactions received, transfer bytes, directory snapshot, user list) must equal the unsplit run's; a state = (session, segmentation), a transition = one read segment. " +
+			"Schedules: a pipelined session of non-commuting requests (new/delete user, new/delete folder, two comments) delivered in one or two segments must give the default schedule's replies, accounts and tree under every schedule with at most 1 (thorough 2) deviations (E-SCHED); two overlapping uploads with the first preamble split around the second connection's preamble",
 		Assumptions: []string{"default schedule (the property's schedule quantifier is over TCP segmentations, which are enumerated); sessions are fixed well-formed scripts"},
 		Run:            runC02,
 		Replay:         replayC02,
